@@ -330,7 +330,11 @@ func newTCPModel(raw json.RawMessage) *tcpModel {
 		lip = net.ParseIP("10.0.0.1").To16()
 	}
 	tm.lis = &fakeLis{ch: make(chan net.Conn), closed: make(chan struct{}), addr: &net.TCPAddr{IP: lip, Port: 7001}}
-	tm.m = NewTCPMuxDefault(TCPMuxParams{Listener: tm.lis, Logger: nopLogger{}, ReadBufferSize: 16, WriteBufferSize: tm.cfg.WriteBuffer})
+	rb := 16
+	if tm.cfg.ReadBuf > 0 {
+		rb = tm.cfg.ReadBuf
+	}
+	tm.m = NewTCPMuxDefault(TCPMuxParams{Listener: tm.lis, Logger: nopLogger{}, ReadBufferSize: rb, WriteBufferSize: tm.cfg.WriteBuffer})
 	tm.front = tm.m
 	if tm.cfg.Kind == "multi" {
 		tm.front = NewMultiTCPMuxDefault(tm.m)
@@ -694,11 +698,34 @@ func (tm *tcpModel) check() {
 
 				continue
 			}
-			for i := 0; i < len(got) && i < len(exp); i++ {
-				if got[i] != exp[i] {
-					tm.problem("", "connection of %s: packet %d differs from what was sent (content, peer address or order)", u, i)
+			// order is a matter of each TCP connection (what one client sent arrives in the order it was sent); how the
+			// streams of several clients interleave in the connection's queue is free (with a backlog it is not arrival order)
+			perPeer := func(l []string) map[string][]string {
+				out := map[string][]string{}
+				for _, x := range l {
+					at := x[strings.LastIndex(x, "@")+1:]
+					out[at] = append(out[at], x)
+				}
 
-					break
+				return out
+			}
+			gp, ep := perPeer(got), perPeer(exp)
+			for at, el := range ep {
+				gl := gp[at]
+				for i := 0; i < len(gl) && i < len(el); i++ {
+					if gl[i] != el[i] {
+						tm.problem("", "connection of %s: packet %d from %s differs from what that client sent (content or order)", u, i, at)
+
+						break
+					}
+				}
+				if len(gl) > len(el) {
+					tm.problem("", "connection of %s: more packets from %s than it sent", u, at)
+				}
+			}
+			for at := range gp {
+				if _, ok := ep[at]; !ok {
+					tm.problem("", "connection of %s: packets from %s, which the reference does not route to it", u, at)
 				}
 			}
 		}
@@ -847,6 +874,8 @@ func checkC15(c *runCtx) {
 		depth = 7
 	}
 	vtSearch(c, p, vtSpec{Name: fmt.Sprintf("TCPMuxDefault, all sequences of length <= %d, <= 3 clients of 10 kinds", depth), Model: "tcpmux", Cfg: muxCfg{Depth: depth}, Deadline: dl})
+	vtSearch(c, p, vtSpec{Name: fmt.Sprintf("TCPMuxDefault whose connections queue one packet (a backlog builds up behind a connection nobody reads: provisional ones, slow readers), all sequences of length <= %d", depth-1), Model: "tcpmux",
+		Cfg: muxCfg{Depth: depth - 1, ReadBuf: 1}, Deadline: dl})
 	// one ufrag with a packet connection on each of two local addresses (both closing orders)
 	if probs, n := c15twoLocals(c.t); true {
 		c.add("transitions", n)
